@@ -542,9 +542,9 @@ func (p *Parser) evaluateValues(ctx context) (evaluatedValues, error) {
 			if returnValuesLength == 0 {
 				return evaluatedValues{}, p.expectedError(fmt.Sprintf(`return value from function "%s"`, funcName), exprToken)
 			}
-		} else if call, ok := ungroup(expr).(FunctionCall); ok && len(call.ReturnTypes()) != 1 {
-			// A group is a single value, therefore a grouped function call must return exactly one value.
-			return evaluatedValues{}, p.expectedError(fmt.Sprintf(`exactly one return value from function "%s"`, call.Name()), exprToken)
+		} else if call, ok := ungroup(expr).(Call); ok && len(call.ReturnTypes()) != 1 && expr.StatementType() == STATEMENT_TYPE_GROUP {
+			// A group is a single value, therefore a grouped function or program call must return exactly one value.
+			return evaluatedValues{}, p.expectedError(fmt.Sprintf(`exactly one return value from "%s"`, call.Name()), exprToken)
 		}
 		// Check if other values follow.
 		if nextToken.Type() != lexer.COMMA {
